@@ -1450,7 +1450,7 @@ fn gcdbez_pair<const N: usize>(a: bnum::BUint<N>, b: bnum::BUint<N>) -> Result<(
             }
             Ok(Err(d)) => {
                 if d != g { return Err(format!("inv_mod::<{N}>({a}, {b}) = Err({d}), the gcd is {g}")); }
-                if g == bnum::BUint::<N>::ONE && !a.is_zero() { return Err(format!("inv_mod::<{N}>({a}, {b}) = Err(1) although the operands are coprime")); }
+                if g == bnum::BUint::<N>::ONE { return Err(format!("inv_mod::<{N}>({a}, {b}) = Err(1) although the operands are coprime")); }
             }
         }
     }
@@ -1535,7 +1535,7 @@ fn gcdbez(rng: &mut Rng, iters: u64) {
     let a = ((U1024::ONE << 40) + U1024::ONE) * c + r;
     let a0 = U1024::from(3u64) * a + c;
     let n26 = U1024::from_str("26984400680641981219").unwrap();
-    for (x, y) in [(p7, p5), (p5, p7), (a0, a), (a, a0), (U1024::from(30894741361u64), n26), (U1024::ONE, U1024::ONE), (U1024::ZERO, U1024::ZERO)] {
+    for (x, y) in [(p7, p5), (p5, p7), (a0, a), (a, a0), (U1024::from(30894741361u64), n26), (U1024::ONE, U1024::ONE), (U1024::ZERO, U1024::ZERO), (U1024::ZERO, U1024::ONE)] {
         if let Err(e) = gcdbez_pair::<16>(x, y) { fail("gcdbez", e); }
     }
     for it in 0..iters {
